@@ -164,4 +164,4 @@ def _known_scheme(r):
     return all(("proxyerr" in r.ops[i] and "70726f787975736572" in r.ops[i]) for (i, m) in r.spec) and bool(r.spec)
 
 
-KNOWN_SIGS = {"proxy-scheme": _known_scheme}
+KNOWN_SIGS = {}   # proxy-scheme-username was repaired (18a9478): a recurrence is a violation again
